@@ -275,6 +275,9 @@ def ty_pool(params):
                 pool.append({"k": "fn", "args": [T(t)], "ret": T(t2)})
     for c in cons:
         pool.append({"k": "array", "of": {"k": "conc", "n": 0}, "len": c})
+        # a const parameter as a generic ARGUMENT: bare (syn reads a type path) and braced (an expression)
+        pool.append({"k": "cgen", "len": c, "braced": False})
+        pool.append({"k": "cgen", "len": c, "braced": True})
     for l in lts:
         pool.append({"k": "ref", "lt": l, "of": {"k": "conc", "n": 1}})
     return pool
@@ -335,7 +338,7 @@ def pool_for(t, ps):
         txt = json.dumps(ty)
         concrete = not any(p in txt for p in ('"param"', '"assoc"', '"array"'))
         has_tp = '"param"' in txt or '"assoc"' in txt
-        if "samename" in txt and (strict_conc or t in ("Deref", "DerefMut")):
+        if ("samename" in txt or '"cgen"' in txt) and (strict_conc or t in ("Deref", "DerefMut")):
             return False                # (the wrapper implements the nine basic traits only)
         if strict_conc:
             if ty["k"] == "conc":
